@@ -863,6 +863,7 @@ func c20CheckDir(dir string, model []c20Entry, reps int) *vlib.Failure {
 }
 
 func c20Run(c c20Case) *vlib.Failure {
+	defer vlib.Guard("C20", c, nil)()
 	if c.Kernel {
 		return c20RunKernel()
 	}
